@@ -182,12 +182,11 @@ def minmod(a,b):
 
 def vanalbada(a,b):
     p = a*b
-    return np.where(p <= 1e-40, 0.,  p/(a**2+b**2+1e-20)*(a+b) )
+    return np.divide(p, a**2+b**2, out=np.zeros(np.shape(p)), where=(p > 0.))*(a+b)
 
 def vanleer(a,b):
     p = a*b
-    s = np.abs(a+b)+1.e-20
-    return np.where(p <= 1e-40, 0., 2*p/s*np.sign(a) )
+    return 2*np.divide(p, np.abs(a+b), out=np.zeros(np.shape(p)), where=(p > 0.))*np.sign(a)
     #return np.where(p <= 0., 0, 2*p/(a+b) )
 
 def superbee(a,b):
